@@ -13,4 +13,13 @@ def jobs(tier, seed):
                         "try_count < servers*tries, arbitrary metrics buckets, arbitrary jitter; one call"))
     J += mjobs.requeue_jobs(tier)
     J += [j for j in mjobs.answer_jobs(tier, owner=False) if j["name"].endswith("current")]
+    # "three bad-cookie resends": bounded by cookie_try_count in the real ares_cookie_validate (C17's validate jobs)
+    import importlib.util
+    p17 = os.path.join(os.path.dirname(os.path.abspath(__file__)), "..", "C17", "jobs.py")
+    spec = importlib.util.spec_from_file_location("jobs_C17_reuse6", p17)
+    m17 = importlib.util.module_from_spec(spec); spec.loader.exec_module(m17)
+    for j in m17.jobs(tier, 0):
+        if "validate" in j["name"]:
+            j = dict(j); j["harness"] = "../C17/" + j["harness"]
+            J.append(j)
     return J
